@@ -4,6 +4,8 @@ CONSTANTS
   Warms <- SW3
   Free = 1
   Slices <- QAllSlices
+  Sels <- QSels
+  Items <- NoItems
   Ops <- SliceOps
 INVARIANT Shape
 INVARIANT LenIsCalls
@@ -14,4 +16,5 @@ INVARIANT IthRecord
 INVARIANT NoAlias
 PROPERTY ArgUnchanged
 PROPERTY ConcatOrder
+PROPERTY IndexShape
 INVARIANT Emit
